@@ -688,13 +688,33 @@ P_req(s, f) ==
       i == IF ws = {} THEN 0 ELSE Min(ws) IN
   CASE fr.pc = "0" ->
          IF q.hasname /\ ws = {} THEN Reply(Ret(s, f, 0), cid, q.mid, "error", 3)
-         ELSE IF q.cmd \in {"status", "numprocesses", "list", "numwatchers"}
+         ELSE IF q.cmd = "list" /\ q.hasname THEN Goto(SetL(s, f, PidSeq(s.ws[i])), f, "rl")
+         ELSE IF q.cmd = "stats"
+         THEN LET RECURSIVE Cat(_)
+                  Cat(is) == IF is = <<>> THEN <<>> ELSE PidSeq(s.ws[Head(is)]) \o Cat(Tail(is))
+                  all == [j \in 1..NW(s) |-> j]
+              IN Goto(SetL(s, f, IF q.hasname THEN PidSeq(s.ws[i]) ELSE Cat(all)), f, "rs")
+         ELSE IF q.cmd \in {"status", "numprocesses", "list", "numwatchers", "options"}
          THEN Reply(Ret(s, f, 1), cid, q.mid, IF q.cmd = "status" /\ q.hasname THEN s.ws[i].st ELSE "ok", 0)
+         ELSE IF q.cmd \notin {"incr", "decr", "kill", "signal", "start", "stop", "restart", "reload", "set", "quit"}
+         THEN Reply(Ret(s, f, 0), cid, q.mid, "error", 2)          \* unknown command
          ELSE IF q.cmd \in {"incr", "decr"} /\ s.ws[i].sing THEN Reply(Ret(s, f, 1), cid, q.mid, "ok", 0)
          ELSE IF q.cmd = "kill" THEN Call(s, f, "k2", "cmd_kill", i, q.pid, q.signum, q.G)
          ELSE IF q.cmd = "signal" THEN Call(s, f, "g1", "cmd_signal", i, q.pid, q.signum,
                                             IF q.children THEN 1 ELSE IF q.recursive THEN 2 ELSE 0)
          ELSE Goto(s, f, "x")
+    [] fr.pc = "rl" ->     \* list <name>: get_active_processes() reads every worker's status
+         IF fr.l = <<>> THEN Goto(SetM(SetL(s, f, fr.m), f, <<>>), f, "rl2")
+         ELSE LET p == Head(fr.l) st == KStatus(s, p) s1 == SetL(s, f, Tail(fr.l)) IN
+              Emit(IF st = "run" THEN SetM(s1, f, Append(fr.m, p)) ELSE s1, Line("status", "", p, 0, st, ""))
+    [] fr.pc = "rl2" ->    \* ... and once more for the debug log line
+         IF fr.l = <<>> THEN Reply(Ret(s, f, 1), cid, q.mid, "ok", 0)
+         ELSE Emit(SetL(s, f, Tail(fr.l)), Line("status", "", Head(fr.l), 0, KStatus(s, Head(fr.l)), ""))
+    [] fr.pc = "rs" ->     \* stats: Process.info() lists the children of every worker that still exists
+         IF fr.l = <<>> THEN Reply(Ret(s, f, 1), cid, q.mid, "ok", 0)
+         ELSE IF s.k[Head(fr.l)].st = "run"
+         THEN Emit(SetL(s, f, Tail(fr.l)), Line("children", "", Head(fr.l), Cardinality(LiveChildren(s, Head(fr.l))), "ok", ""))
+         ELSE Goto(SetL(s, f, Tail(fr.l)), f, "rs")
     [] fr.pc = "k2" ->
          LET kid == LastKid(s, f) IN
          IF q.waiting
@@ -869,6 +889,8 @@ Request(s, q, cid) ==
 \* SIGTERM / SIGINT / SIGQUIT to the daemon: SysHandler queues dispatch((None, quit)) on the loop
 DaemonSignal(s, sig) ==
   EnvLine(Enq(s, [kind |-> "dsig", f |-> 0, cid |-> "", mid |-> ""]), Line("dsig", "", 0, sig, "", ""))
+\* the next process creations fail (exec error) / succeed as the environment decides
+AddFault(s, kind) == EnvLine([s EXCEPT !.faults = Append(@, kind)], Line("spawnfault", "", 0, 0, kind, ""))
 Boot(s) ==
   LET id == Min(FreeIds(s))
       s1 == [Fresh(s) EXCEPT !.booted = TRUE, !.slot = "arbiter_start_watchers",
